@@ -191,3 +191,13 @@ Theorem C04_eviction_refuted :
   w_next 61 (fst (w_flood (snd (fst w_state)) 61 1000 32)) = true /\
   w_next 59 (fst (w_flood (snd (fst w_state)) 59 1000 33)) = true.
 Proof. exact eviction_witness. Qed.
+
+(* the same on the sending side: 33 further SSRCs and 60 s of silence evict a sending context; the
+   stream restarts at ROC 0 and its receiver refuses it *)
+Theorem C04_tx_eviction_refuted :
+  let tx := fst (fst w_state) in let rx := snd (fst w_state) in
+  w_tx_next 61 tx rx = true /\
+  w_tx_next 61 (w_tx_flood tx 61 2000 33) rx = false /\
+  w_tx_next 61 (w_tx_flood tx 61 2000 32) rx = true /\
+  w_tx_next 59 (w_tx_flood tx 59 2000 33) rx = true.
+Proof. exact tx_eviction_witness. Qed.
